@@ -147,6 +147,8 @@ def check(run, repo):
     for (sd, rd), (rs, ps, ts), space, fmt in itertools.product(delims, stoichs, (False, True), fmts):
         if fmt == '.3f' and not any(isinstance(x, Fr) for x in rs + ps):
             continue
+        if fmt == '.3f' and sd == ' . ' and run.tier != 'thorough':
+            continue        # (quick tier: the call as printed is made for the default format only, see below)
         I = Interp(repo)
         names = [('r%d' % i, 1 + 3 * i) for i in range(len(rs))] + [('p%d' % i, 2 + i) for i in range(len(ps))] + \
             [('t%d' % i, 6) for i in range(len(ts or []))]
@@ -1244,4 +1246,24 @@ ZERO_COUNT_MUTANT = {
               (R_, '            element_count += Counter({element: coeff * stoich_specie})\n',
                '            element_count[element] = (element_count.get(element, 0.)\n'
                '                                      + coeff * stoich_specie)\n')]}
-EQUIV = []
+# behaviour-preserving refactorings of the white-box review, round 3 (reduced to their essential edits): no new finding
+EQUIV = [
+    {'name': 'coefficient and name read through named groups and match.groupdict()',
+     'edits': [(R_, "        stoich_search = re.search(r'^\\d+\\.?\\d*', specie)\n        if stoich_search is None:\n",
+                "        term = re.match(r'(?s)(?P<stoich>\\d+\\.?\\d*)?(?P<name>.*)', specie).groupdict()\n"
+                "        if term['stoich'] is None:\n"),
+               (R_, '            specie_stoich = stoich_search.group()\n            trim_len = len(specie_stoich)\n'
+                    '            specie = specie[trim_len:].strip()\n            specie_stoich = float(specie_stoich)\n',
+                "            specie = term['name'].strip()\n            specie_stoich = float(term['stoich'])\n")]},
+    {'name': 'parse_formula totals in a defaultdict(int), returned as a dict',
+     'edits': [('pmutt/__init__.py', '    elements = {}\n', '    from collections import defaultdict\n'
+                                                                '    elements = defaultdict(int)\n'),
+               ('pmutt/__init__.py', "        elements[element] = elements.get(element, 0) + int(coefficient or '1')\n"
+                                     "    return elements\n",
+                "        elements[element] += int(coefficient or '1')\n    return dict(elements)\n")]},
+    {'name': 'printer joins coefficient, name and delimiter with the % operator',
+     'edits': [(R_, "                specie_str = '{} {}'.format(stoich_val, specie_key)", "                specie_str = '%s %s' % (stoich_val, specie_key)"),
+               (R_, "                specie_str = '{}{}'.format(stoich_val, specie_key)", "                specie_str = '%s%s' % (stoich_val, specie_key)"),
+               (R_, "            reaction_str += '{}{}'.format(species_delimiter, specie_str)",
+                "            reaction_str += '%s%s' % (species_delimiter, specie_str)")]},
+]
